@@ -208,10 +208,10 @@ class DirectoryRecord:
             # happen.
             raise pycdlibexception.PyCdlibInvalidISO('Directory record longer than 255 bytes!')
 
-        # According to http://www.dubeyko.com/development/FileSystems/ISO9960/ISO9960.html,
-        # the xattr_len is the number of bytes at the *beginning* of the file
-        # extent.  Since this is only a byte, it is necessarily limited to 255
-        # bytes.
+        # According to ECMA-119 9.1.2, the xattr_len is the number of logical
+        # blocks at the *beginning* of the file extent that hold the Extended
+        # Attribute Record.  Since this is only a byte, it is necessarily
+        # limited to 255 blocks.
         (self.dr_len, self.xattr_len, extent_location_le, extent_location_be,
          data_length_le, data_length_be_unused, dr_date, self.file_flags,
          self.file_unit_size, self.interleave_gap_size, seqnum_le, seqnum_be,
@@ -326,6 +326,13 @@ class DirectoryRecord:
                 raise pycdlibexception.PyCdlibInvalidISO('Record Bit not allowed with Extended Attributes')
             if self.file_flags & (1 << self.FILE_FLAG_PROTECTION_BIT):
                 raise pycdlibexception.PyCdlibInvalidISO('Protection Bit not allowed with Extended Attributes')
+            if not self.isdir:
+                # The data of the file starts after the Extended Attribute
+                # Record.  We don't support Extended Attribute Records, so we
+                # don't carry it along; from here on this record describes the
+                # data of the file only.
+                self.orig_extent_loc += self.xattr_len
+                self.xattr_len = 0
 
         if self.rock_ridge is None:
             ret = ''
